@@ -1406,6 +1406,26 @@ func (g *c14Gen) mutate(f []byte, cmd string, pver uint32, pool [][]byte) (strin
 	// command field damage: embedded NUL, non-UTF-8, case, unknown names
 	names := []string{"ver\x00ack", "\xff\xfe", "Version", "versio", "versionx", "", "getheaders\x00x", "authch\x01", "zzzzzzzzzzzz", "protoconfx"}
 	var c [12]byte
+	if g.rng.Intn(2) == 0 {
+		// the frame's own (known) command moved inside the 12-byte field: leading NULs / spaces, NUL in front and
+		// behind, trailing space — only an exact name padded with NULs on the right is a command of the table
+		pads := []string{"\x00", "\x00\x00", " ", "\t"}
+		pad := pads[g.rng.Intn(len(pads))]
+		var nm string
+		switch g.rng.Intn(3) {
+		case 0:
+			nm = pad + cmd
+		case 1:
+			nm = cmd + " "
+		default:
+			nm = pad + cmd + pad
+		}
+		if len(nm) <= 12 {
+			copy(c[:], nm)
+			copy(out[4:16], c[:])
+			return "command-field-shifted", out
+		}
+	}
 	copy(c[:], names[g.rng.Intn(len(names))])
 	copy(out[4:16], c[:])
 	return "command-field", out
@@ -1607,6 +1627,20 @@ func (g *c14Gen) generate() []c14Case {
 			pool = append(pool, f)
 			add(fmt.Sprintf("wframe %d %d %s", 70013, uint32(net), c14Hex(f)), "frame-valid:"+cmd, true)
 		}
+	}
+
+	// one valid frame of every command with the name moved one byte to the right inside the command field
+	seenCmd := map[string]bool{}
+	for _, sr := range srcs {
+		if seenCmd[sr.cmd] || len(sr.cmd) > 11 || len(sr.f) < 24 {
+			continue
+		}
+		seenCmd[sr.cmd] = true
+		f := append([]byte{}, sr.f...)
+		var cf [12]byte
+		copy(cf[1:], sr.cmd)
+		copy(f[4:16], cf[:])
+		add(fmt.Sprintf("wframe %d %d %s", sr.pver, binary.LittleEndian.Uint32(f), c14Hex(f)), "mutation:command-field-shifted:"+sr.cmd, true)
 	}
 
 	// (b) mutation stream over every command
